@@ -238,6 +238,41 @@ def run(ck):
                 continue
             ck.case(case, nontrivial=n >= 2)
             ck.count("column")
+            # a later search() call appends rows WITHOUT the new column (the writer keeps the columns of
+            # its first dump) and the column is computed again at its end: the second table must be exact too
+            if not all(failed) and ck.rng.random() < 0.5:
+                n2 = ck.rng.randint(1, 5)
+                objs2 = [[float(ck.rng.randint(0, 4)) for _ in range(m)] for _ in range(n2)]
+                failed2 = [ck.rng.random() < 0.2 for _ in range(n2)]
+                with open(path, "a") as f:
+                    for k, (o, fl) in enumerate(zip(objs2, failed2)):
+                        cells = ["F"] * m if fl else [repr(v) for v in o]
+                        f.write(f"{n + k}," + ",".join(cells) + f",{n + k}\n")
+                case2 = {"kind": "column-second-call", "objs": objs + objs2, "failed": failed + failed2, "job_ids": jobids + list(range(n, n + n2))}
+                try:
+                    Search.extend_results_with_pareto_efficient_indicator(ns)
+                    df2 = pd.read_csv(path)
+                    flags = df2["pareto_efficient"].tolist()
+                    by_job2 = {int(j): b for j, b in zip(df2["job_id"].tolist(), flags)}
+                except Exception as e:
+                    ck.fail("C11|raises|pareto_efficient-column", f"{type(e).__name__} on the second call", case2, repr(e))
+                    continue
+                ck.case(case2, nontrivial=True)
+                ck.count("column-second-call")
+                allobjs, allfailed, alljobs = case2["objs"], case2["failed"], case2["job_ids"]
+                if sorted(by_job2) != sorted(alljobs) or any(not isinstance(b, (bool, np.bool_)) for b in by_job2.values()):
+                    ck.fail("C11|column-undefined|pareto_efficient-column", "pareto_efficient is missing/undefined for some rows after a second call", case2,
+                            {"flags": [repr(b) for b in flags]})
+                    continue
+                col2 = [bool(by_job2[j]) for j in alljobs]
+                if any(col2[k] for k in range(len(alljobs)) if allfailed[k]):
+                    ck.fail("C11|failed-row-flagged|pareto_efficient-column", "a failed row is flagged pareto_efficient", case2)
+                ok2 = [k for k in range(len(alljobs)) if not allfailed[k]]
+                sub2 = [[-v for v in allobjs[k]] for k in ok2]
+                if sub2:
+                    reqs.append({"op": "nds", "pts": [[rat(v) for v in p] for p in sub2], "order": list(range(len(sub2))),
+                                 "mask": [col2[k] for k in ok2], "idx": [i for i, k in enumerate(ok2) if col2[k]]})
+                    metas.append(("column", case2, None, None, None))
             ok_rows = [k for k in range(n) if not failed[k]]
             sub = [[-v for v in objs[k]] for k in ok_rows]
             if any(col[k] for k in range(n) if failed[k]):
